@@ -87,10 +87,11 @@ Theorem c12_client_told_same : forall valid bdef hb,
 Proof. exact told_same_all. Qed.
 Print Assumptions c12_client_told_same.
 
-(** The client's map is what the client established (its startup parameters, names resolved
-    case-insensitively as PostgreSQL does, then the server's reports), provided the startup
-    packet stays inside [startup_ok] (see the three startup refutations below). *)
-Theorem c12_established : forall valid bdef hb ops, startups_ok ops = true ->
+(** The client's map is what the client established: its startup parameters (the pairs up to the
+    terminating empty name; names resolved ignoring case as PostgreSQL does; values as sent:
+    empty, non-ASCII ...), then the server's reports - for every history, no guard (the guards
+    that findings D1-D3 needed are gone with repairs 5c1953d and 68af9b4). *)
+Theorem c12_established : forall valid bdef hb ops,
   forall c s co dk bv cv evv,
     In (EvStmt c s co dk bv cv evv) (w_log (run valid bdef hb ops)) -> cv = evv.
 Proof. exact established. Qed.
@@ -133,7 +134,7 @@ Definition ops_good : list op :=
    OQuery 1 0 [SBegin]; OQuery 1 0 [SSet false K_tz (B "X\Y")]; OQuery 0 1 q1; OQuery 1 0 [SRollback];
    OQuery 0 0 q1; ODisconnect 1; OQuery 0 0 q1].
 Example c12_nonvacuous :
-  startup_valid marker_valid ops_good = true /\ startups_ok ops_good = true /\
+  startup_valid marker_valid ops_good = true /\
   count_stmts (run_mock ops_good) = 9%nat /\
   stmt_mismatch (run_mock ops_good) = false /\ est_mismatch (run_mock ops_good) = false /\
   dirty_handoff (run_mock ops_good) = false /\
@@ -155,29 +156,44 @@ Example c12_invalid_startup_refuted :
                     | _ => false end) (run_mock ops_invalid) = true.
 Proof. vm_compute. repeat split; reflexivity. Qed.
 
-(** D-nonascii: parse_params pushes every byte as a char: "café" (UTF-8) becomes "cafÃ©". *)
+(** Regressions of the repaired startup findings: the old inputs are handled right now; the
+    transcriptions of the old code ([old_startup_decode], [old_recase]) show what used to happen. *)
 Definition cafe : bytes := [99; 97; 102; 195; 169].
 Definition ops_nonascii : list op := [OConnect 0 [u; (K_app, cafe)]; OQuery 0 0 q1].
-Example c12_startup_nonascii_refuted :
-  startups_ok ops_nonascii = false /\ est_mismatch (run_mock ops_nonascii) = true /\
-  startup_decode [u; (K_app, cafe)] = Some [u; (K_app, [99; 97; 102; 195; 131; 194; 169])].
+Example c12_startup_nonascii_fixed :   (* D1, 5c1953d *)
+  est_mismatch (run_mock ops_nonascii) = false /\ stmt_mismatch (run_mock ops_nonascii) = false /\
+  existsb (fun e => match e with EvStmt 0 0 _ _ bv _ _ => opt_beq (nth 4 bv None) (Some cafe) | _ => false end)
+          (run_mock ops_nonascii) = true /\
+  startup_decode [u; (K_app, cafe)] = Some [u; (K_app, cafe)] /\
+  old_startup_decode [u; (K_app, cafe)] = Some [u; (K_app, [99; 97; 102; 195; 131; 194; 169])].
 Proof. vm_compute. repeat split; reflexivity. Qed.
 
-(** D-spelling: only "timezone" and "datestyle" are re-cased; TIMEZONE / Application_Name /
-    DATESTYLE are dropped: the client is told (and gets) the pool's value. *)
-Definition ops_spelling : list op := [OConnect 0 [u; (B "TIMEZONE", B "Europe/Paris")]; OQuery 0 0 q1].
-Example c12_startup_key_spelling_refuted :
-  startups_ok ops_spelling = false /\ est_mismatch (run_mock ops_spelling) = true /\
-  stmt_mismatch (run_mock ops_spelling) = false.
+Definition ops_spelling : list op :=
+  [OConnect 0 [u; (B "TIMEZONE", B "Europe/Paris"); (B "Application_Name", B "x")]; OQuery 0 0 q1].
+Example c12_startup_key_spelling_fixed :   (* D2, 68af9b4 *)
+  est_mismatch (run_mock ops_spelling) = false /\ stmt_mismatch (run_mock ops_spelling) = false /\
+  existsb (fun e => match e with
+                    | EvStmt 0 0 _ _ bv _ _ => opt_beq (nth 2 bv None) (Some (B "Europe/Paris")) && opt_beq (nth 4 bv None) (Some (B "x"))
+                    | _ => false end) (run_mock ops_spelling) = true /\
+  recase (B "TIMEZONE") = K_tz /\ recase (B "Application_Name") = K_app /\ recase (B "datestyle") = K_date /\
+  recase (B "server_version") = B "server_version" /\
+  old_recase (B "TIMEZONE") = B "TIMEZONE".
 Proof. vm_compute. repeat split; reflexivity. Qed.
 
-(** D-empty: empty strings are skipped by parse_params: one empty value => the connection is
-    refused; two => names and values are shifted against each other. *)
-Example c12_startup_empty_refuted :
-  startup_decode [u; (B "database", B "db"); (K_app, [])] = None /\
+Definition ops_empty : list op := [OConnect 0 [u; (B "database", B "db"); (K_app, []); (K_enc, [])]; OQuery 0 0 q1].
+Example c12_startup_empty_fixed :   (* D3, 5c1953d *)
+  startup_decode [u; (B "database", B "db"); (K_app, [])] = Some [u; (B "database", B "db"); (K_app, [])] /\
   startup_decode [u; (B "database", B "db"); (K_app, []); (K_enc, [])] =
-    Some [u; (B "database", B "db"); (K_app, K_enc)].
-Proof. vm_compute. split; reflexivity. Qed.
+    Some [u; (B "database", B "db"); (K_app, []); (K_enc, [])] /\
+  est_mismatch (run_mock ops_empty) = false /\ stmt_mismatch (run_mock ops_empty) = false /\
+  existsb (fun e => match e with EvStmt 0 0 _ _ bv _ _ => opt_beq (nth 4 bv None) (Some []) && opt_beq (nth 0 bv None) (Some []) | _ => false end)
+          (run_mock ops_empty) = true /\
+  old_startup_decode [u; (B "database", B "db"); (K_app, [])] = None /\
+  old_startup_decode [u; (B "database", B "db"); (K_app, []); (K_enc, [])] = Some [u; (B "database", B "db"); (K_app, K_enc)] /\
+  (* the list ends at an empty name; nothing or no user => refused *)
+  startup_decode [u; ([], B "x"); (K_app, B "ignored")] = Some [u] /\ startup_decode [] = None /\
+  startup_decode [(K_app, B "x")] = None.
+Proof. vm_compute. repeat split; reflexivity. Qed.
 
 (** the dependency on C02 is real: with the original has_broken (always false) a client task that
     dies in a failed transaction hands its connection on; the next client's SET batch is refused
